@@ -8,6 +8,8 @@
 #include "params_util.hpp"
 #include "parameter_reader.hpp"
 #include "solver.hpp"
+#include "simulation_initializer.hpp"
+#include <sstream>
 #include "verif_hooks.hpp"
 #include <filesystem>
 #include <typeinfo>
@@ -134,6 +136,50 @@ static void reader_case(const Args& a, long i, Agg& agg) {
     agg.add(c);
 }
 
+// ---- part startup: the file through the constructor main() uses -----------------------------------------------------------------------------
+// simulation_initializer(parameter_file_path): the parameters it reports must be those of the file, and perform_initial_triangulation must govern
+// what happens to the input geometry: with 0 the cells are the triangles of the input file (same node and face counts, same points), with 1 the
+// surfaces are sampled and triangulated anew.
+static void startup_case(const Args& a, long i, Agg& agg) {
+    Rng g(a.seed, (uint64_t)i, 0x18D); Case c(i);
+    Doc d = gen_doc(g, 1, 4, 1, 5);
+    long dis = oracle_disagreements(d); if (dis) { c.v = "skip"; agg.add(c); return; }
+    // classes the initializer can build: lumen (2) / static (4) for any number of face types, epithelial (0) with at least three
+    for (auto& ct : d.cells) { const int cls = ct.faces.size() >= 3 && g.coin(0.4) ? 0 : g.coin() ? 2 : 4; set_int(fld(ct.f, "global_cell_id"), g, cls); }
+    // input geometry: 1-3 triangulated spheres, the type of each an index into the list of cell types
+    const int ncell = g.range(1, 3); const double r = g.logu(1e-6, 1e-4); std::vector<gen::TriMesh> ms; std::vector<int> tids; double me = 0;
+    for (int k = 0; k < ncell; k++) { gen::TriMesh m = gen::icosphere(g.range(1, 2)); gen::jitter(m, g, 0.03); gen::rotate(m, gen::rot_random(g)); gen::scale(m, r, r, r); gen::translate(m, 3.0 * r * k, 0, 0); me += gen::mean_edge(m) / ncell; ms.push_back(m); tids.push_back(g.range(0, (int)d.cells.size() - 1)); }
+    std::ostringstream o; size_t np = 0; for (auto& m : ms) np += m.P.size(); char b[128];
+    o << "# vtk DataFile Version 4.2\nvtk output\nASCII\nDATASET UNSTRUCTURED_GRID\nPOINTS " << np << " double\n";
+    for (auto& m : ms) for (auto& q : m.P) { snprintf(b, sizeof b, "%.17g %.17g %.17g \n", q[0], q[1], q[2]); o << b; }
+    size_t total = 0; for (auto& m : ms) total += 2 + 4 * m.T.size(); o << "\nCELLS " << ms.size() << " " << total << "\n"; size_t off = 0;
+    for (auto& m : ms) { o << (1 + 4 * m.T.size()) << " " << m.T.size() << " "; for (auto& t : m.T) o << "3 " << t[0] + off << " " << t[1] + off << " " << t[2] + off << " "; o << "\n"; off += m.P.size(); }
+    o << "CELL_TYPES " << ms.size() << "\n"; for (size_t k = 0; k < ms.size(); k++) o << "42\n";
+    o << "\nCELL_DATA " << ms.size() << "\nFIELD FieldData 1\ncell_type_id 1 " << ms.size() << " int\n"; for (int t : tids) o << t << " "; o << "\n";
+    const std::string mp = unique_path(i, "m", ".vtk"), xp = unique_path(i, "s", ".xml");
+    const bool tri = g.coin(0.5); set_str(fld(d.num, "input_mesh_file_path"), mp); set_int(fld(d.num, "perform_initial_triangulation"), g, tri ? 1 : 0);
+    set_double(fld(d.num, "min_edge_length"), g, me * g.uni(0.6, 0.9)); set_double(fld(d.num, "contact_cutoff_adhesion"), g, me * g.uni(0.1, 0.4)); set_double(fld(d.num, "contact_cutoff_repulsion"), g, me * g.uni(0.1, 0.4));
+    Rng ge(a.seed, (uint64_t)i, 0x18E); Emitter em(ge); const std::string xml = em.emit(d);
+    if (!write_file(mp, o.str()) || !write_file(xp, xml)) { c.v = "inconclusive"; c.msg = "harness: cannot write the input files"; emit(c.line()); agg.add(c); return; }
+    ReadOut ro = read_file(xp); std::vector<cell_ptr> cells; std::string err;
+    try { simulation_initializer init(xp, false); ro.sp = init.get_simulation_parameters(); cells = init.get_cell_lst(); } catch (const std::exception& e) { err = std::string(typeid(e).name()) + ": " + e.what(); }
+    unlink(mp.c_str()); unlink(xp.c_str());
+    c.nontrivial = true; c.sig = hash_combine(hash_str(xml), (uint64_t)tri);
+    agg.bin(tri ? "startup:triangulation_requested" : "startup:triangulation_declined");
+    if (ro.threw) c.viol("admissible_file_rejected", "reader threw at stage " + ro.stage + ": " + ro.what);
+    else if (!err.empty()) { if (!tri) c.viol("startup:admissible_input_rejected", "simulation_initializer(parameter file) threw for a triangulated input with perform_initial_triangulation = 0: " + err.substr(0, 300)); else agg.bin("startup:triangulation_failed_cleanly"); }
+    else { compare(d, ro, c, agg, false);
+        if (c.v != "viol" && cells.size() != (size_t)ncell) c.viol("startup:cell_count", "the input file holds " + std::to_string(ncell) + " cells, the initializer returned " + std::to_string(cells.size()));
+        for (size_t k = 0; k < cells.size() && c.v != "viol"; k++) { const size_t nn = cells[k]->get_nb_of_nodes(), nf = cells[k]->get_nb_of_faces();
+            if (!tri) { bool same = nn == ms[k].P.size() && nf == ms[k].T.size(); double dev = 0;
+                if (same) { const auto& nl = cell_tester::nodes(*cells[k]); for (size_t q = 0; q < nl.size(); q++) dev = std::max({dev, std::fabs(nl[q].pos().dx() - ms[k].P[q][0]), std::fabs(nl[q].pos().dy() - ms[k].P[q][1]), std::fabs(nl[q].pos().dz() - ms[k].P[q][2])}); }
+                if (!same || dev > 1e-12 * r) c.viol("meaning:perform_initial_triangulation:input_retriangulated_although_0", "perform_initial_triangulation is 0 in the parameter file, yet cell " + std::to_string(k) + " returned by simulation_initializer(parameter file) has " + std::to_string(nn) + " nodes / " + std::to_string(nf) + " faces while the input cell has " + std::to_string(ms[k].P.size()) + " / " + std::to_string(ms[k].T.size()));
+                else agg.bin("startup:input_cells_kept_as_they_are"); }
+            else { if (nn != ms[k].P.size() || nf != ms[k].T.size()) agg.bin("startup:cells_triangulated_anew"); else agg.bin("startup:triangulated_cell_with_input_counts"); } } }
+    if (c.v == "viol") c.obs.s("xml", xml.size() < 6000 ? xml : xml.substr(0, 6000));
+    agg.add(c);
+}
+
 // ---- part neg -------------------------------------------------------------------------------------------------------------
 struct Neg { std::string type, level, tag; int variant; };   // type: omit | sign | struct ; level: num | cell | face
 static std::vector<Neg> catalogue() {
@@ -213,6 +259,7 @@ static int cmd_params(const Args& a) {
         if (part == "reader") c18::reader_case(a, i, agg);
         else if (part == "neg") c18::neg_case(a, i, agg, cat);
         else if (part == "meaning") c18::meaning_case(a, i, agg);
+        else if (part == "startup") c18::startup_case(a, i, agg);
         else { fprintf(stderr, "params: unknown --part=%s\n", part.c_str()); return 2; }
     }
     if (part == "neg") agg.maxi("catalogue_size", (double)cat.size());
